@@ -8,6 +8,7 @@ the random numbers and the returned array.  For the binary/Brier rejection loop 
 """
 import contextlib
 import glob
+import io
 import json
 import math
 import os
@@ -37,7 +38,13 @@ THEOREMS = ["Sampler.place_iff", "Sampler.last_weight_is_one", "Sampler.weights_
             "Sampler.quantile_bounds", "Sampler.quantile_counts_ties", "Sampler.quantile_no_tolerance",
             "Sampler.seed_zero_applied",
             "Sampler.result_is_function", "Sampler.injected_result_is_function", "Sampler.rounding_monotone",
-            "Sampler.fdiv_self_eq_one"]
+            "Sampler.fdiv_self_eq_one",
+            # round 4 (Properties/C06_Chain.lean)
+            "Sampler.simulate_is_bincount", "Sampler.simulate_entry_interval", "Sampler.simulate_entry_interval_weights",
+            "Sampler.simulated_array_zero_in_zero_rate_bin", "Sampler.injected_test_total",
+            "Sampler.poisson_test_prescribed_count", "Sampler.binary_sim_terminates_iff",
+            "Sampler.binary_sim_exhausted_iff", "Sampler.hit_iff_draw_in_interval", "Sampler.testBinaryStream_spec",
+            "Sampler.binary_test_prescribed_count"]
 TRUSTED = ["Lean 4.33 kernel", "axioms: propext, Classical.choice, Quot.sound at most",
            "Soft64.fl64 is IEEE-754 binary64 round-to-nearest-even and numpy + / cumsum on float64 are that arithmetic "
            "(validated bit-exactly on every generated rate vector)",
@@ -52,7 +59,9 @@ RULE = ("rate vectors of 1..40 bins (1-D and 2-D) with leading / trailing / inte
         "(neighbouring bins differ by 10^U(-13,-5) relative, plateaus of exactly equal bins) with 1..3 observed events in "
         "the lowest / highest / a random bin and 20..400 simulations for all seven public tests, so that simulated "
         "statistics lie a few ulps .. 1e-5 relative above and below the observed one and on it; the quantile must be the "
-        "exact fraction #{sim <= obs}/n of the RETURNED test_distribution. A case is non-trivial when a draw "
+        "exact fraction #{sim <= obs}/n of the RETURNED test_distribution; round 4: array-level rate / observed arrays in "
+        "Fortran, transposed, sliced and reversed layouts and as int64, verbose runs of 100-125 simulations for every public "
+        "test, whole array-level tests compared with the model computing the prescribed number itself. A case is non-trivial when a draw "
         "sits on or next to a cumulative boundary, a zero-rate bin exists, or a simulated statistic lies within 1e-4 "
         "relative of the observed one; distinct by (kind, rates, draws)")
 
@@ -114,6 +123,26 @@ def feed_uniform(stream):
         numpy.random.uniform = orig
 
 
+@contextlib.contextmanager
+def capped_uniform(cap=300000):
+    """let numpy.random.uniform work as usual but stop a rejection loop that does not finish (a changed test may ask
+    for more active cells than exist: it would draw forever)"""
+    orig = numpy.random.uniform
+    state = dict(n=0)
+
+    def f(*a, **k):
+        state["n"] += 1
+        if state["n"] > cap:
+            raise StreamExhausted(f"more than {cap} uniform draws in one test: the rejection loop does not finish")
+        return orig(*a, **k)
+
+    numpy.random.uniform = f
+    try:
+        yield state
+    finally:
+        numpy.random.uniform = orig
+
+
 def _mods():
     from csep.core import poisson_evaluations as pe, binomial_evaluations as be, brier_evaluations as br
     return dict(poisson=pe, binary=be, brier=br)
@@ -151,7 +180,7 @@ def capture(mod):
 
 # ----------------------------------------------------------------------------- generators
 def gen_rates(rng, n, force_zero=None):
-    style = rng.choice(["decades", "decades", "uniform", "decimal", "equal", "tiny-tail"])
+    style = rng.choice(["decades", "decades", "uniform", "decimal", "equal", "tiny-tail", "integers"])
     out = []
     for i in range(n):
         if style == "decades":
@@ -162,6 +191,8 @@ def gen_rates(rng, n, force_zero=None):
             v = rng.choice([0.1, 0.2, 0.3, 0.25, 0.5, 1.0, 3.0, 0.7, 1e-3])
         elif style == "equal":
             v = 0.1
+        elif style == "integers":
+            v = float(rng.choice([1, 1, 2, 3, 5, 10, 100, 1000]))
         else:
             v = 10.0 ** rng.uniform(-1, 1) if i < max(1, n // 2) else 10.0 ** rng.uniform(-17, -13)
         out.append(v)
@@ -265,6 +296,26 @@ def quantile_oracle(qs, obs, sims, nsim):
     return None
 
 
+# ----------------------------------------------------------------------------- memory layout / dtype of the arrays handed to the tests
+def with_layout(a, layout):
+    """an array equal to `a` element by element (same shape, same logical C order) with another memory layout"""
+    a = numpy.asarray(a)
+    if layout == "C" or a.ndim != 2:
+        return a.copy()
+    if layout == "F":
+        out = numpy.asfortranarray(a.copy())
+    elif layout == "T":
+        out = numpy.ascontiguousarray(a.T).T
+    elif layout == "slice":
+        big = numpy.full((2 * a.shape[0] + 1, a.shape[1] + 2), 777, dtype=a.dtype)
+        big[1::2, 1:a.shape[1] + 1] = a
+        out = big[1::2, 1:a.shape[1] + 1]
+    else:
+        out = a[::-1, ::-1].copy()[::-1, ::-1]
+    assert out.shape == a.shape and numpy.array_equal(out, a)
+    return out
+
+
 # ----------------------------------------------------------------------------- array-level case
 def n_active(obs):
     return len([v for v in obs if v != 0])
@@ -323,8 +374,14 @@ def do_array(run, drv, pending, case):
             pending.append(("d10", case, i, None))
             return
         # with injected numbers the call is safe (no loop): fall through
+    # round 4: the same numbers in another memory layout / dtype (the tests flatten with .ravel(): logical C order)
     F = numpy.array(rates, dtype=float).reshape(shape)
-    O = numpy.array(obs, dtype=float).reshape(shape)
+    if case.get("rdtype") == "int64" and all(float(v).is_integer() for v in rates):
+        F = F.astype(numpy.int64)
+    F = with_layout(F, case.get("layout", "C"))
+    O = with_layout(numpy.array(obs, dtype=float if case.get("odtype", "float") == "float" else numpy.int64).reshape(shape),
+                    case.get("olayout", "C"))
+    run.count(f"array-layout-{case.get('layout', 'C')}-{case.get('rdtype', 'float64')}-obs-{case.get('odtype', 'float')}")
     R = None if rows is None else numpy.array(rows, dtype=float).reshape(nsim, -1)
     fn = dict(poisson="_poisson_likelihood_test", binary="_binary_likelihood_test", brier="_brier_score_test")[module]
     kw = dict(num_simulations=nsim, random_numbers=R, seed=None, verbose=False)
@@ -366,13 +423,20 @@ def do_array(run, drv, pending, case):
     if rec:
         w_impl = rec[0][1]
         run.extra["weights_compared"] = run.extra.get("weights_compared", 0) + 1
+    obstxt = ",".join(str(int(v)) for v in obs) if obs else "-"
     if rows is not None:
         for idx, call in enumerate(rec):
             i = drv.ask(f"c06_run {'m' if masked else 'p'} {flist(rates)} {flist(rows[idx])}")
             pending.append(("run", case, i, call))
+        # the whole injected test: the prescribed number (sum(obs) / number of active cells) is computed by the model
+        rowtxt = ";".join(flist(r) for r in rows) if rows else "-"
+        if rows and all(len(r) for r in rows):
+            i = drv.ask(f"c06_test {'m' if masked else 'p'} {flist(rates)} {obstxt} {rowtxt}")
+            pending.append(("test", case, i, (rec, exc)))
     else:
-        # the whole stream: simulations consume it one after another
-        i = drv.ask(f"c06_rejchain {flist(rates)} {expect_n} {nsim} {flist(stream)}")
+        # the whole stream: simulations consume it one after another; the number of active cells to reach is computed
+        # by the model from the observed array
+        i = drv.ask(f"c06_bintest {flist(rates)} {obstxt} {nsim} {flist(stream)}")
         pending.append(("chain", case, i, (rec, len(stream), consumed, exc)))
     if exc is None and res is not None:
         qs, ob, sims = res
@@ -423,6 +487,13 @@ def flush(run, drv, pending):
             model = dict(status=st, arrays=arrs, consumed=(nstream - rest) if st == "ok" else None)
             if impl != model:
                 run.mismatch(case, impl, model)
+        elif kind == "test":
+            rec, exc = data
+            impl = "exception" if exc is not None else [[int(v) for v in r[3]] for r in rec]
+            model = out[i] if out[i] == "exception" else (
+                [] if out[i] == "-" else [[] if a == "-" else [int(x) for x in a.split(",")] for a in out[i].split(";")])
+            if impl != model:
+                run.mismatch(case, dict(simulated_catalogs=impl), dict(simulated_catalogs=model))
         elif kind == "d10":
             st, arr, rest = parse_rej(out[i])
             if st != "exhausted":
@@ -505,6 +576,11 @@ def gen_array_case(rng, tier, module=None, want_d10=False):
     injected = want_d10 and rng.random() < 0.3 or (not want_d10 and (module == "poisson" or rng.random() < 0.5))
     case = dict(kind="array", module=module, rates=hx(rates), shape=shape, obs=obs, nsim=nsim, style=style,
                 normalize=rng.random() < 0.5)
+    if len(shape) == 2:
+        case["layout"] = rng.choice(["C", "C", "F", "T", "slice", "rev"])
+        case["olayout"] = rng.choice(["C", "C", "C", "F", "T"])
+    case["odtype"] = rng.choice(["float", "float", "int"])
+    case["rdtype"] = "int64" if style == "integers" and rng.random() < 0.6 else "float64"
     if injected:
         case["rows"] = [hx(gen_row(rng, cands, ev)) for _ in range(nsim)]
         case["stream"] = None
@@ -597,10 +673,16 @@ def do_public(run, drv, pending, case):
     exc, res = None, None
     if seed is None and rows is None:
         raise RuntimeError("public case needs rows or a seed")
+    kw = {}
+    if case.get("verbose"):
+        kw["verbose"] = True          # the progress-printing branch (every 100 simulations)
     with capture(mod) as rec:
         try:
             numpy.random.seed(case.get("ambient", 12345))
-            res = fn(fore, cat, num_simulations=nsim, seed=seed, random_numbers=R)
+            with capped_uniform(), contextlib.redirect_stdout(io.StringIO()):
+                res = fn(fore, cat, num_simulations=nsim, seed=seed, random_numbers=R, **kw)
+        except StreamExhausted as e:
+            exc = "rejection loop did not finish: " + str(e)
         except Exception as e:
             exc = type(e).__name__
     if exc is not None:
@@ -648,7 +730,8 @@ def do_seed(run, drv, pending, case):
         numpy.random.seed(ambient)
         numpy.random.rand(case.get("burn", 3))
         try:
-            res = getattr(mods[module], case["test"])(fore, cat, num_simulations=case["nsim"], seed=case["seed"])
+            with capped_uniform():
+                res = getattr(mods[module], case["test"])(fore, cat, num_simulations=case["nsim"], seed=case["seed"])
             keys.append(result_key(res))
         except Exception as e:
             keys.append(("exc", type(e).__name__))
@@ -755,7 +838,7 @@ def gen_smooth_rates(rng, n):
     return out, "smooth-" + style
 
 
-def gen_neartie_case(rng, test, tier):
+def gen_neartie_case(rng, test, tier, force_verbose=False):
     module, view, conditional = PUBLIC[test]
     nx, ny, nm = rng.choice([(2, 1, 2), (3, 1, 1), (3, 2, 1), (3, 2, 2), (4, 2, 2), (6, 1, 2), (5, 2, 3)])
     n = nx * ny * nm
@@ -781,8 +864,11 @@ def gen_neartie_case(rng, test, tier):
         flat = [order[0]] * nev                      # several events in one bin
     events = [[i // nm, i % nm] for i in flat]
     nsim = rng.choice([20, 30, 40, 60]) if tier == "quick" else rng.choice([40, 100, 200, 400])
+    verbose = force_verbose or rng.random() < 0.25
+    if verbose:
+        nsim = 100 + rng.randint(0, 25)          # reaches the `(idx + 1) % 100 == 0` progress branch
     case = dict(kind="public", test=test, nx=nx, ny=ny, nm=nm, rates=hx(rates), events=events, nsim=nsim, style=style,
-                neartie=where)
+                neartie=where, verbose=verbose)
     fore, cat = build_public(case)
     Fr, Or = public_inputs(case, fore, cat)
     masked = module != "poisson"
@@ -957,9 +1043,16 @@ def run(run, rng, tier):
     flush_all(run, drv, pending)
     # near ties: smooth forecasts, many simulations, every public test
     for test in PUBLIC:
-        for _ in range(8 if quick else 120):
-            case = gen_neartie_case(rng, test, tier)
+        for idx in range(8 if quick else 120):
+            # the first case of every test is a long verbose run (>= 100 simulations, progress printing on)
+            case = gen_neartie_case(rng, test, tier, force_verbose=(idx == 0))
+            for _ in range(20):
+                if case or idx != 0:
+                    break
+                case = gen_neartie_case(rng, test, tier, force_verbose=True)
             if case:
+                if case.get("verbose"):
+                    run.count("public-verbose-long-run")
                 do_neartie(run, drv, pending, case)
         flush_all(run, drv, pending)
     # determinism for every seed incl. 0, every public test
